@@ -248,6 +248,18 @@ pub fn run(ctx: &Ctx, rep: &mut Report) {
                     }
                 }
             }
+            if rng.chance(1, 12) {
+                let ia = w.its.clone();
+                if w.u.upgrade_and_migrate(&ia).is_ok() {
+                    rep.step("the service is upgraded to the same code and migrated".into());
+                    rep.count("upgrade-and-migrate");
+                    if let Some(dd) = w.check_registry() {
+                        rep.violation("registry-changed-by-upgrade-and-migrate", dd);
+                        alive = false;
+                        continue;
+                    }
+                }
+            }
             let (sname, supply) = *rng.pick(&SUPPLIES);
             let mclass = *rng.pick(&MINTERS);
             let deployer = w.users[rng.usize(2)].clone();
